@@ -10,6 +10,8 @@ SEEDED = os.path.join(VERIF, 'seeded')
 def one(sid):
     d = os.path.join(SEEDED, sid)
     meta = json.load(open(os.path.join(d, 'meta.json')))
+    if meta.get('superseded_by_fix'):
+        return sid, None  # written against code that a later fix: commit replaced; kept for the record with its last result
     t = tempfile.mkdtemp(prefix='asv-rs-')
     try:
         repo = os.path.join(t, 'repo')
@@ -53,6 +55,7 @@ for sid in sorted(x for x in os.listdir(SEEDED) if os.path.exists(os.path.join(S
     f = m.get('checks_fired', {})
     own = f.get(m['property'], [])
     lines.append('| %s | %s | %s | %s | %s | %s |' % (sid, m['property'], 'yes' if m.get('kept') else 'no (%s)' % m.get('not_kept_reason', 'see meta.json'),
-                 'yes' if own else 'NO', '; '.join(sorted({x.split('|')[0] for x in own})), ' '.join(sorted(k for k in f if k != m['property']))))
+                 ('yes' if own else 'NO') + (' (last checked before fix: %s, which replaced the code it edits)' % m['superseded_by_fix'] if m.get('superseded_by_fix') else ''),
+                 '; '.join(sorted({x.split('|')[0] for x in own})), ' '.join(sorted(k for k in f if k != m['property']))))
 open(os.path.join(SEEDED, 'SUMMARY.md'), 'w').write('\n'.join(lines) + '\n')
 print('\n'.join(lines))
